@@ -29,6 +29,7 @@ FIXED = [
  ("C12", "sync/explicit-fsyncdata-noop", "fix: Storage::fsyncdata always", "explicit fsyncdata() issues no sync below the dirty-byte limit"),
 ]
 OPEN = [
+ ("C08", "conc/deadlock-channel-backpressure", "thousands of concurrent writers on a full, aged active blob: each write sends a rotation request while holding the storage read lock; when the 1024-slot maintenance queue is full the senders block, and the worker that would drain it waits for the storage write lock - permanent stall (observed from ~8000 writers)"),
  ("C14", "cancel/delete-partially-applied", "a delete future dropped between delete_in_active and the end of delete_in_closed has appended its marker to the active blob (and possibly some closed blobs) but not to the remaining closed blobs in which the key is live; a later delete(only_if_presented) or a restart makes the difference observable"),
  ("C14", "cancel/create-leaves-partial-blob", "dropping try_create_active_blob (or a write/delete that has to create the active blob) before the blob header is written leaves an empty or header-less *.blob file; the next start quarantines it (corrupted_blobs_count = 1) although no data is involved"),
  ("C11", "fault/failed-write-resurrected-after-index-regeneration", "a write that returned Err after its header (or the whole record) had reached the blob file is indexed by the next start-up scan when the index file is missing/stale and data validation is off: contains/read_all list it although it was reported as failed (read of its data fails the checksum unless the whole record was written)"),
